@@ -41,7 +41,7 @@ def quorum_guard(prog, b, bb, name, polarity, assume=()):
 def ob_s2n_table(run, oid):
     prog = run.program("lib")
     o = run.ob(oid, "SafeToNotar is returned only under the protocol's stake, parent and own-vote conditions; and recorded as sent",
-               "a SafeToNotar event without these conditions lets a correct node cast a notar-fallback vote that is not provably safe", floor=10)
+               "a SafeToNotar event without these conditions lets a correct node cast a notar-fallback vote that is not provably safe", floor=8)
     b = prog.body(SS + "::check_safe_to_notar")
     if b is None:
         o.missing("SlotState::check_safe_to_notar")
@@ -95,7 +95,20 @@ def ob_s2n_table(run, oid):
                     gne = a
             o.check(gne is not None, key + "|own-vote", "own notar vote present and for a different block", sp, det)
         else:
-            o.fail(key + "|own-vote", "SafeToNotar returned without the node having voted (skip, or notar for another block)", sp, det)
+            # the two cases may share one arm (`(Some(_), _) | (None, Some(_)) => ..` after a guard arm for 'our own block'): no single
+            # condition dominates the result then - decide per path
+            from engine import paths
+            rows = [r for r in paths.decision_table(b, prog) if r[1] is not None and isinstance(K.peel(r[1]), tuple) and K.peel(r[1])[0] == "agg" and str(K.peel(r[1])[2]) == "SafeToNotar"]
+            okp = bool(rows)
+            for atoms, ret, _bl in rows:
+                sk = any(a[0] == "is_some" and a[2] is True and K.mentions_field(a[1][0], "skip", "SlotVotes") and K.mentions_call(a[1][0], "own_id") for a in atoms)
+                nt = any(a[0] == "is_some" and a[2] is True and K.mentions_field(a[1][0], "notar", "SlotVotes") and K.mentions_call(a[1][0], "own_id") for a in atoms) and any(
+                    a[0] == "eq" and a[2] is False and any(K.mentions_call(x, "NotarVote::block_hash") for x in a[1]) and any(K.mentions_name(x, hash_param) for x in a[1]) for a in atoms)
+                okp = okp and (sk or nt)
+            if okp:
+                o.ok(key + "|own-vote", "on every path to the result: own skip vote present, or own notar vote present and for a different block", sp)
+            else:
+                o.fail(key + "|own-vote", "SafeToNotar returned without the node having voted (skip, or notar for another block)", sp, det)
         rec = [lambda a: a[0] == "bool" and a[1][0][0] == "call" and a[1][0][1].startswith(EPOCH + "is_"),
                lambda a: a[0] in ("is_some", "eq", "variant") and any(K.mentions_field(x, "parents", "SlotState") for x in a[1] if isinstance(x, tuple)),
                lambda a: a[0] in ("is_some", "variant", "eq") and any((K.mentions_field(x, "skip", "SlotVotes") or K.mentions_field(x, "notar", "SlotVotes")) and K.mentions_call(x, "own_id") for x in a[1] if isinstance(x, tuple))]
@@ -222,12 +235,18 @@ def ob_triggers(run, oid):
     o.check(ok, "add_valid_cert|notify-waiting-child|calls-notify", "the waiting child's SlotState::notify_parent_certified is called", "")
     # add_block: parent already certified
     for ab in prog.family("<" + PI + " as " + POOL + "Pool>::add_block"):
-        if not ab.is_closure:
-            continue
+        if not ab.is_closure or not ab.defpath.endswith("add_block::{closure#0}"):
+            continue        # the coroutine body of the async fn (not closures nested in it)
         npc = ab.calls_to(SS + "::notify_parent_certified")
         o.check(bool(npc), "Pool::add_block|notify_parent_certified", "add_block notifies immediately when the parent is already certified", ab.span)
         for c in npc:
             g = G.has_guard(prog, ab, c.bb, pred="bool", polarity=True, calls=[SS + "::is_notar_fallback_or_stronger"])
+            if g is None:
+                # `slot_states.get(parent_slot).is_some_and(|s| s.is_notar_fallback_or_stronger(parent_hash))`
+                for a in G.guard_atoms(ab, c.bb, prog):
+                    if a[0] == "bool" and a[2] is True and any(any(c2.name == SS + "::is_notar_fallback_or_stronger" for c2 in fb.calls())
+                                                                 for x in mir.walk(a[1][0]) if isinstance(x, tuple) and x and x[0] == "closure" for fb in prog.family(x[1])):
+                        g = a
             o.check(g is not None, "Pool::add_block|notify_parent_certified|guard", "only when is_notar_fallback_or_stronger(parent_hash)", c.span)
         npk = ab.calls_to(SS + "::notify_parent_known")
         o.check(bool(npk) and ab.always_followed_by(0, [c.bb for c in npk]), "Pool::add_block|notify_parent_known", "every registered block's parent becomes Known", ab.span)
@@ -335,6 +354,8 @@ def ob_bookkeeping(run, oid):
             for (wb, _sp, rv) in [x for x in K.writes_of_field(b, "SlotVotedStake", "top_notar") if x[0] == bb]:
                 t = b.rvalue_term(rv)
                 ok = t[0] == "call" and t[1].endswith("::max") and any(K.mentions_field(a, "top_notar") for a in t[2]) and any(stake_fields(b, a) >= {"notar"} for a in t[2])
+                # `if notar[h] > top_notar { top_notar = notar[h] }`: the same running maximum
+                ok = ok or (D.monotone_write(prog, b, bb, t, "top_notar", "SlotVotedStake") and stake_fields(b, t) >= {"notar"})
                 o.check(bool(ok), "top_notar|max|%s" % fshort(fn), "top_notar = max(notar[h], top_notar)", sp, {"value": mir.show(t)})
 
 
@@ -497,7 +518,16 @@ def ob_sorted_vec(run, oid):
         return False
 
     def mutations(b, name):
-        return [c for c in b.calls() if c.name.rsplit("::", 1)[-1] == name and c.name.startswith("smallvec::")]
+        # in the function itself or in a closure handed to a combinator (`search(key).unwrap_or_else(|at| { self.0.insert(at, ..); at })`)
+        return [c for fb in prog.family(b.defpath) for c in fb.calls() if c.name.rsplit("::", 1)[-1] == name and c.name.startswith("smallvec::")]
+
+    def okness(a, argpos, b):
+        """(is_ok polarity) when atom `a` tests the search result for Ok / Err: is_ok(x), (x in ['Ok']), (x in ['Err'])"""
+        if a[0] == "is_ok" and search_of(b, a[1][0], argpos):
+            return a[2]
+        if a[0] == "variant" and search_of(b, a[1][0], argpos) and a[1][1] in (frozenset(["Ok"]), frozenset(["Err"])):
+            return a[2] == (a[1][1] == frozenset(["Ok"]))
+        return None
     # ---- set
     for fn, present_ret, mut in (("insert", 0, "insert"), ("remove", 1, "remove")):
         b = prog.body(SV + "SortedVecSet::" + fn)
@@ -508,13 +538,14 @@ def ob_sorted_vec(run, oid):
         ok = len(rows) == 2
         for atoms, ret, _bl in rows:
             a = [x for x in atoms if not D.is_structural_atom(x)]
-            ok = ok and len(a) == 1 and a[0][0] == "is_ok" and search_of(b, a[0][1][0], 2) and K.const_eval(ret) == (present_ret if a[0][2] else 1 - present_ret)
+            okk = okness(a[0], 2, b) if len(a) == 1 else None
+            ok = ok and okk is not None and K.const_eval(ret) == (present_ret if okk else 1 - present_ret)
         o.check(ok, "SortedVecSet::%s|verdict" % fn, "%s answers by a binary search for the given value (%s when present)" % (fn, bool(present_ret)), b.span)
         ms = mutations(b, mut)
         ok = len(ms) == 1 and len(mutations(b, "push")) == 0
         if ok:
-            g = [x for x in G.guard_atoms(b, ms[0].bb, prog) if x[0] == "is_ok" and search_of(b, x[1][0], 2)]
-            ok = len(g) == 1 and g[0][2] is (fn == "remove")
+            g = [okness(x, 2, b) for x in G.guard_atoms(b, ms[0].bb, prog) if okness(x, 2, b) is not None]
+            ok = len(set(g)) == 1 and g[0] is (fn == "remove")
             idx = b.operand_term(ms[0].args[1])
             ok = ok and search_of(b, idx, 2)
             if fn == "insert":
@@ -528,6 +559,13 @@ def ob_sorted_vec(run, oid):
         ok = len(rows) == 1 and not [x for x in rows[0][0] if not D.is_structural_atom(x)]
         t = K.peel(rows[0][1]) if ok else None
         ok = ok and isinstance(t, tuple) and t[0] == "call" and t[1].endswith("Result::is_ok") and search_of(b, t, 2)
+        if not ok and len(rows) == 2:
+            # `matches!(binary_search(value), Ok(_))` / an explicit match: true exactly on the Ok side
+            ok = True
+            for atoms, ret, _bl in rows:
+                a = [x for x in atoms if not D.is_structural_atom(x)]
+                okk = okness(a[0], 2, b) if len(a) == 1 else None
+                ok = ok and okk is not None and K.const_eval(ret) == (1 if okk else 0)
         o.check(bool(ok), "SortedVecSet::contains|verdict", "contains = binary_search(value).is_ok()", b.span)
     # ---- map
     b = prog.body(SV + "SortedVecMap::search")
@@ -550,9 +588,16 @@ def ob_sorted_vec(run, oid):
     else:
         ms = mutations(b, "insert")
         ok = len(ms) == 1 and not mutations(b, "push") and not mutations(b, "remove")
-        if ok:
-            g = [x for x in G.guard_atoms(b, ms[0].bb, prog) if x[0] == "is_ok" and search_of(b, x[1][0], 2)]
-            ok = len(g) == 1 and g[0][2] is False and search_of(b, b.operand_term(ms[0].args[1]), 2)
+        if ok and ms[0].body is b:
+            g = [okness(x, 2, b) for x in G.guard_atoms(b, ms[0].bb, prog) if okness(x, 2, b) is not None]
+            ok = len(set(g)) == 1 and g[0] is False and search_of(b, b.operand_term(ms[0].args[1]), 2)
+        elif ok:
+            # inside the closure of `search(key).unwrap_or_else(|at| ..)` / `.map_err(..)`: runs only for Err(at), inserts at `at`
+            cb = ms[0].body
+            hosts = [c for c in b.calls() if c.name.rsplit("::", 1)[-1] in ("unwrap_or_else", "or_else", "map_err") and "result::Result" in c.name
+                     and search_of(b, b.operand_term(c.args[0]), 2) and K.mentions(b.operand_term(c.args[1]), lambda x: x[0] == "closure" and x[1] == cb.defpath)]
+            it = K.peel(cb.operand_term(ms[0].args[1]))
+            ok = len(hosts) == 1 and isinstance(it, tuple) and it and it[0] == "param" and it[1] == 2 and not D.extra_guards(prog, cb, ms[0].bb, [])
         o.check(bool(ok), "SortedVecMap::get_or_insert_with|position", "a new entry is inserted only when the key is absent, at the index the search reported", b.span)
         rows = paths.decision_table(b, prog)
         ok = bool(rows)
@@ -651,4 +696,8 @@ def check(run):
     ob_registry(run, "O6.6")
     ob_parent_certified(run, "O6.8")
     ob_sorted_vec(run, "O6.10")
+    # "the parent's certificate arrives last (by received certificate)": a received certificate the pool refuses as a duplicate never notifies
+    # the waiting child - the duplicate rule is per kind, and per block for notar-fallback
+    from . import C03 as _C03
+    _C03.ob_once(run, "O6.11")
     D.ob_loop_exits(run, "O6.9", ["consensus::pool"], "a certificate can release several waiting children, a skip vote several pending blocks: leaving the loop at the first one that has nothing to report leaves the others waiting for ever")
